@@ -3,6 +3,7 @@ package main
 // Calls: conversions, builtins, library models, call-by-contract, inlining, opaque calls.
 
 import (
+	"strconv"
 	"fmt"
 	"go/ast"
 	"go/token"
@@ -46,7 +47,7 @@ var pureStd = map[string]bool{
 	"strings.LastIndex": true, "strings.SplitN": true, "strings.Title": true, "strings.IndexAny": true, "strings.Map": true,
 	"strconv.Itoa": true, "strconv.Quote": true, "strconv.FormatInt": true,
 	"encoding/hex.EncodeToString": true, "(*encoding/base64.Encoding).EncodeToString": true,
-	"bytes.HasPrefix": true, "bytes.Compare": true,
+	"bytes.Compare": true,
 	"unicode.IsUpper": true, "unicode.IsLower": true, "unicode.IsDigit": true, "unicode.IsLetter": true, "unicode.IsSpace": true,
 	"math.Abs": true,
 	"slices.Contains": true, "slices.Equal": true, "slices.Index": true,
@@ -134,6 +135,40 @@ func init() {
 			so := a[0].T.Sort
 			fn := e.sc.Fun("bytes.contents:"+so, []string{so}, SInt)
 			return Val{T: Eq(App(SInt, fn, a[0].T), App(SInt, fn, a[1].T)), GT: boolT}
+		},
+		// bytes.HasPrefix with a prefix of literal length: element-wise comparison (quantifier-free); otherwise an
+		// uninterpreted function of both arguments
+		"bytes.HasPrefix": func(e *Exec, st *State, a []Val, x *ast.CallExpr) Val {
+			n := -1
+			if x != nil && len(x.Args) == 2 {
+				switch lit := ast.Unparen(x.Args[1]).(type) {
+				case *ast.CompositeLit:
+					n = len(lit.Elts)
+					for _, el := range lit.Elts {
+						if _, kv := el.(*ast.KeyValueExpr); kv {
+							n = -1
+						}
+					}
+				case *ast.CallExpr: // []byte("literal")
+					if len(lit.Args) == 1 {
+						if bl, ok := ast.Unparen(lit.Args[0]).(*ast.BasicLit); ok && bl.Kind == token.STRING {
+							if sv, err := strconv.Unquote(bl.Value); err == nil {
+								n = len(sv)
+							}
+						}
+					}
+				}
+			}
+			if n >= 0 && n <= 32 && isSlcSort(a[0].T.Sort) {
+				conds := []Term{Ge(SlcLen(a[0].T), IntLit(int64(n)))}
+				for i := 0; i < n; i++ {
+					conds = append(conds, Eq(Select(SlcArr(a[0].T), IntLit(int64(i))), Select(SlcArr(a[1].T), IntLit(int64(i)))))
+				}
+				return Val{T: And(conds...), GT: boolT}
+			}
+			so := a[0].T.Sort
+			fn := e.sc.Fun("bytes.HasPrefix:"+so, []string{so, so}, SBool)
+			return Val{T: App(SBool, fn, a[0].T, a[1].T), GT: boolT}
 		},
 		"strings.Index": func(e *Exec, st *State, a []Val, x *ast.CallExpr) Val {
 			return Val{T: App(SInt, "str.indexof", a[0].T, a[1].T, IntLit(0)), GT: intT}
@@ -262,6 +297,15 @@ func (e *Exec) permuteInPlace(st *State, name string, a []Val, x *ast.CallExpr) 
 	light := false
 	if tc := e.frames[0].contract; tc != nil && tc.Opts["permutation"] == "multiset" {
 		light = true
+	}
+	if tc := e.frames[0].contract; tc != nil && tc.Opts["permutation"] == "keeps" {
+		// one direction only: every element of the slice before is still in it afterwards (at a position given by
+		// an uninterpreted function) — what "every key is still in the sorted key list" needs, and much cheaper
+		light = true
+		at := e.sc.Fun(fmt.Sprintf("permat!%d", e.sc.counter), []string{SInt}, SInt)
+		e.sc.counter++
+		e.assume(st, T(SBool, fmt.Sprintf("(forall ((i Int)) (! (=> (and (<= 0 i) (< i %s)) (and (<= 0 (%s i)) (< (%s i) %s) (= (select %s i) (select %s (%s i))))) :pattern ((select %s i))))",
+			n.S, at, at, n.S, SlcArr(s.T).S, arr.S, at, SlcArr(s.T).S)))
 	}
 	pos := e.sc.Fun(fmt.Sprintf("permpos!%d", e.sc.counter), []string{SInt}, SInt)
 	inv := e.sc.Fun(fmt.Sprintf("perminv!%d", e.sc.counter), []string{SInt}, SInt)
